@@ -143,9 +143,27 @@ func NumericIntDo(op NumericOp, a, b *SexpInt) Sexp {
 			return &SexpFloat{Val: float64(a.Val) / float64(b.Val)}
 		}
 	case Pow:
+		if b.Val >= 0 {
+			return &SexpInt{Val: int64(uint64Pow(uint64(a.Val), uint64(b.Val)))}
+		}
 		return &SexpInt{Val: int64(math.Pow(float64(a.Val), float64(b.Val)))}
 	}
 	return SexpNull
+}
+
+// uint64Pow is base**exp modulo 2^64, exact like the wrapping
+// multiplication it repeats (float64 has 53 bits and saturates).
+// Two's complement makes the same bits right for signed operands.
+func uint64Pow(base, exp uint64) uint64 {
+	result := uint64(1)
+	for exp > 0 {
+		if exp&1 == 1 {
+			result *= base
+		}
+		base *= base
+		exp >>= 1
+	}
+	return result
 }
 
 func NumericUint64Do(op NumericOp, a, b *SexpUint64) Sexp {
@@ -163,7 +181,7 @@ func NumericUint64Do(op NumericOp, a, b *SexpUint64) Sexp {
 			return &SexpFloat{Val: float64(a.Val) / float64(b.Val)}
 		}
 	case Pow:
-		return &SexpUint64{Val: uint64(math.Pow(float64(a.Val), float64(b.Val)))}
+		return &SexpUint64{Val: uint64Pow(a.Val, b.Val)}
 	}
 	return SexpNull
 }
